@@ -1,18 +1,21 @@
 #!/usr/bin/env python3
 """import_eqv3.py G... : copies the refactoring patches of equivalence round 3 (/tmp/eqv3/<G>/out/<ID>/s<k>/) into equivalents/<ID>/t-<g>-s<k>-<function>-<kind>.patch (+ .json sidecar)"""
 import sys, os, json, re, glob, shutil
+ROOT = os.environ.get('EQV_ROOT', '/tmp/eqv3')
+PFX = os.environ.get('EQV_PREFIX', 't')
+RND = os.environ.get('EQV_ROUND', '3')
 HERE = os.path.dirname(os.path.dirname(os.path.abspath(__file__)))
 for G in sys.argv[1:]:
-    for d in sorted(glob.glob('/tmp/eqv3/%s/out/*/s*/' % G)):
+    for d in sorted(glob.glob('%s/%s/out/*/s*/' % (ROOT, G))):
         pid = d.rstrip('/').split('/')[-2]
         k = d.rstrip('/').split('/')[-1]
         if not os.path.exists(d + 'patch.diff'):
             continue
         m = json.load(open(d + 'meta.json')) if os.path.exists(d + 'meta.json') else {}
         slug = re.sub(r'[^a-z0-9]+', '-', ('%s-%s' % (m.get('function', ''), m.get('kind', ''))).lower()).strip('-')[:60]
-        name = 't-%s-%s-%s' % (G.lower(), k, slug)
+        name = '%s-%s-%s-%s' % (PFX, G.lower(), k, slug)
         os.makedirs(os.path.join(HERE, 'equivalents', pid), exist_ok=True)
         shutil.copy(d + 'patch.diff', os.path.join(HERE, 'equivalents', pid, name + '.patch'))
-        m['origin'] = 'independent sub-agent, equivalence round 3 (target functions of the rules written from the round-3 observations)'
+        m['origin'] = 'independent sub-agent, equivalence round %s (target functions of the newest rules)' % RND
         json.dump(m, open(os.path.join(HERE, 'equivalents', pid, name + '.json'), 'w'), indent=1)
         print(os.path.join('equivalents', pid, name + '.patch'))
